@@ -31,6 +31,33 @@
 namespace Avoid {
 
 
+bool CmpConnEndPtrByConn::operator()(const ConnEnd *lhs,
+        const ConnEnd *rhs) const
+{
+    if (lhs == rhs)
+    {
+        return false;
+    }
+    const ConnRef *lhsConn = lhs->m_conn_ref;
+    const ConnRef *rhsConn = rhs->m_conn_ref;
+    if (lhsConn && rhsConn)
+    {
+        if (lhsConn->id() != rhsConn->id())
+        {
+            return lhsConn->id() < rhsConn->id();
+        }
+        unsigned int lhsType = lhs->endpointType();
+        unsigned int rhsType = rhs->endpointType();
+        if (lhsType != rhsType)
+        {
+            return lhsType < rhsType;
+        }
+    }
+    // Last resort, shouldn't be reached for connected ConnEnds.
+    return lhs < rhs;
+}
+
+
 Obstacle::Obstacle(Router *router, Polygon ply, const unsigned int id)
     : m_router(router),
       m_polygon(ply),
@@ -340,7 +367,7 @@ void Obstacle::removeFollowingConnEnd(ConnEnd *connEnd)
 ConnRefList Obstacle::attachedConnectors(void) const
 {
     ConnRefList attachedConns;
-    for (std::set<ConnEnd *>::const_iterator curr = m_following_conns.begin();
+    for (ConnEndPtrSet::const_iterator curr = m_following_conns.begin();
             curr != m_following_conns.end(); ++curr)
     {
         ConnEnd *connEnd = *curr;
